@@ -79,14 +79,17 @@ func (m *c07mon) after(s *sim, st rig.StepResult, ctx stepCtx) {
 	justified := false
 	var why []string
 	echoOfOwnReset := inbound141 && s.cfg.initiator && m.sentFlag && ctx.stateBefore == "logon" && !sentLogonWithFlag
-	if inbound141 && !echoOfOwnReset {
+	// a Logon only negotiates or triggers anything if it is accepted: one that the application (or
+	// validation) refuses leaves counters and stored messages alone
+	logonAccepted := ctx.kind == "in" && ctx.msgType == "A" && s.r.V.IsLoggedOn()
+	if inbound141 && !echoOfOwnReset && logonAccepted {
 		// (the answer to the engine's own Logon-with-flag only echoes a reset that has already happened)
 		justified, why = true, append(why, "Logon with ResetSeqNumFlag=Y received")
 	}
 	if sentLogonWithFlag {
 		justified, why = true, append(why, "Logon with ResetSeqNumFlag=Y sent")
 	}
-	if ctx.kind == "in" && ctx.msgType == "A" && !s.cfg.initiator && m.o.resetOnLogon {
+	if logonAccepted && !s.cfg.initiator && m.o.resetOnLogon {
 		justified, why = true, append(why, "acceptor with ResetOnLogon received a Logon")
 	}
 	if ctx.kind == "connect" && s.cfg.initiator && m.o.resetOnLogon {
@@ -326,6 +329,16 @@ func c07Property(t *rapid.T) {
 			}
 		}
 		defer func() { s.r.EditAdmin = nil }()
+		// the application may refuse the counterparty's Logon (FromAdmin returns RejectLogon)
+		refuseLogon := rapid.IntRange(0, 5).Draw(t, "application-refuses-logon") == 0
+		s.r.FromAdminErr = func(m *quickfix.Message) quickfix.MessageRejectError {
+			if mt, _ := m.Header.GetString(35); mt == "A" && refuseLogon {
+				mon.feat["application-refused-logon"] = true
+				return quickfix.RejectLogon{Text: "refused by the application"}
+			}
+			return nil
+		}
+		defer func() { s.r.FromAdminErr = nil }()
 		if appEdit != "" {
 			mon.feat["application-sets-ResetSeqNumFlag="+appEdit] = true
 			s.logf("the application will set 141=%s on its Logon", appEdit)
